@@ -35,12 +35,21 @@
     edge lines (as the code orients them: cyclically for a triangle given clockwise, in the reverse
     cycle for a counter-clockwise one; Bresenham ties round differently in the two directions).
 
-  Every sub-claim of the triangle part is a theorem about the model. The modelling step of the
-  outline path - for stroke width 1 and centre alignment `LineJoin::from_points` /
-  `ThickSegment::intersection` reduce to the Bresenham intersection with the skeleton line
-  `Line(v[i+1], v[i+2])`, the parameter `skeletonSeg` of EG/Model/Triangle.lean - is proved on the
-  join model: `EG.C19.Joins.skeleton_seg_is_join_code` (Props/C19/Joins.lean). Not proved: the
-  same for Inside / Outside alignment (the [V] line of Props/C19/Joins.lean).
+  * `outline_all_alignments`: the same for `StrokeAlignment::Inside` and `Outside` (model
+    EG/Model/TriangleAligned.lean): the pixel set is the union of the three edge lines, each edge in
+    one of its two orientations (the predicate of the oracle). `Outside`, and `Inside` on a triangle
+    of non-zero area, run the very iterator of the centre alignment (`outline_alignment_irrelevant`);
+    `Inside` on a zero-area triangle takes the collapsed arm of `generate_lines`: `pixels()` is
+    `points()` in the stroke colour, the Bresenham line between the `(y, x)`-extreme vertices
+    (`outline_inside_degenerate`; the centre alignment additionally paints that line backwards).
+
+  Every sub-claim of the triangle part is a theorem about the model. The modelling steps of the
+  outline path are proved on the join model (Props/C19/Joins.lean), for all three alignments:
+  for stroke width 1 `LineJoin::from_points` / `ThickSegment::intersection` reduce to the Bresenham
+  intersection with the skeleton line `Line(v[i+1], v[i+2])`, the parameter `skeletonSeg` of
+  EG/Model/Triangle.lean (`EG.C19.Joins.skeleton_seg_is_join_code`), and
+  `is_collapsed(1, offset) && offset == Right` is `area_doubled <= 0 && Inside`, the parameter
+  `collapsedFlag1` of EG/Model/TriangleAligned.lean (`EG.C19.Joins.collapsed_flag_is_join_code`).
 
   Arithmetic: the model computes in unbounded integers, "ALL vertex triples" above means all triples
   of the MODEL. In Rust `Triangle::area_doubled` and the `s`, `t`, `s + t` of `Triangle::contains`
@@ -61,6 +70,7 @@ import EG.Lemmas.TriangleCover
 import EG.Lemmas.TriangleNear
 import EG.Lemmas.TriangleOutlineMain
 import EG.Lemmas.TriangleColinear
+import EG.Lemmas.TriangleOutlineAligned
 namespace EG.C19
 open EG EG.Triangle
 
@@ -447,5 +457,105 @@ theorem outline_translate (t : Triangle) (c : Nat) (d p : Pt) (h1 : t.boundingBo
 
 example : (⟨⟨0, 0⟩, ⟨5, 1⟩, ⟨4, 6⟩⟩ : Triangle).boundingBox.InRange ∧
     ((⟨⟨0, 0⟩, ⟨5, 1⟩, ⟨4, 6⟩⟩ : Triangle).translate ⟨-7, 3⟩).boundingBox.InRange := by decide
+
+/-! ## The one-pixel outline with `StrokeAlignment::Inside` / `Outside` -/
+
+/-- `l` is the edge between `a` and `b`, rasterised in one of its two directions. -/
+def IsEdge (l : Line) (a b : Pt) : Prop := l = ⟨a, b⟩ ∨ l = ⟨b, a⟩
+
+theorem IsEdge.symm {l : Line} {a b : Pt} (h : IsEdge l a b) : IsEdge l b a := Or.symm h
+
+/-- **The alignment does not matter unless the triangle has zero area and the stroke is `Inside`**:
+the `is_collapsed` flag is not set, the stroke offset reaches nothing else (the join code gives the
+same skeleton segments), and `pixels()` is the very list of the centre alignment. -/
+theorem outline_alignment_irrelevant (t : Triangle) (c : Nat) (a : TriAlign)
+    (h : ¬ (t.areaDoubled = 0 ∧ a = .inside)) : t.outlinePixelsAligned c a = t.outlinePixels c :=
+  outlinePixelsAligned_of_not_collapsed t c a h
+
+example : ¬ ((⟨⟨0, 0⟩, ⟨5, 1⟩, ⟨4, 6⟩⟩ : Triangle).areaDoubled = 0 ∧ TriAlign.inside = .inside) := by
+  decide
+example : ¬ ((⟨⟨0, 0⟩, ⟨2, 3⟩, ⟨4, 6⟩⟩ : Triangle).areaDoubled = 0 ∧ TriAlign.outside = .inside) := by
+  decide
+
+/-- `Center` is the model of EG/Model/Triangle.lean. -/
+theorem outline_center (t : Triangle) (c : Nat) : t.outlinePixelsAligned c .center = t.outlinePixels c :=
+  outlinePixelsAligned_of_not_collapsed t c .center (by simp)
+
+/-- **`Inside` on a zero-area triangle** (colinear or coincident vertices): the collapsed arm of
+`generate_lines` hands out the whole `scanline_intersection` row as stroke, so `pixels()` is
+`points()` in the stroke colour: exactly the pixels of the Bresenham line between the
+`(y, x)`-extreme vertices, which contains the other two edge lines. -/
+theorem outline_inside_degenerate (t : Triangle) (c : Nat) (h : t.boundingBox.InRange)
+    (ha : t.areaDoubled = 0) :
+    t.outlinePixelsAligned c .inside = t.points.map (fun p => (p, c)) ∧
+    ∀ p, p ∈ (t.outlinePixelsAligned c .inside).map (·.1) ↔
+      (p ∈ Line.points ⟨t.sortedYx.v1, t.sortedYx.v2⟩ ∨ p ∈ Line.points ⟨t.sortedYx.v2, t.sortedYx.v3⟩ ∨
+       p ∈ Line.points ⟨t.sortedYx.v1, t.sortedYx.v3⟩) := by
+  have e := outlinePixelsAligned_collapsed t c h ha
+  refine ⟨e, fun p => ?_⟩
+  rw [e, List.map_map]
+  have : ((fun x : Pt × Nat => x.1) ∘ fun p : Pt => (p, c)) = id := by funext q; rfl
+  rw [this, List.map_id, degenerate_points_iff t h ha]
+  have hb := sorted_between t ha
+  unfold longLine
+  constructor
+  · intro hp; exact Or.inr (Or.inr hp)
+  · rintro (hp | hp | hp)
+    · exact hb.mem_left hp
+    · exact hb.mem_right hp
+    · exact hp
+
+example : (⟨⟨4, 6⟩, ⟨0, 0⟩, ⟨2, 3⟩⟩ : Triangle).boundingBox.InRange ∧
+    (⟨⟨4, 6⟩, ⟨0, 0⟩, ⟨2, 3⟩⟩ : Triangle).areaDoubled = 0 := by decide
+
+/-- The three edges of a reordered triangle are the three edges of the triangle. -/
+theorem edges_of_orders {t s : Triangle} (h : s ∈ orders t) {l12 l23 l31 : Line}
+    (h12 : IsEdge l12 s.v1 s.v2) (h23 : IsEdge l23 s.v2 s.v3) (h31 : IsEdge l31 s.v3 s.v1) :
+    ∃ e1 e2 e3, IsEdge e1 t.v1 t.v2 ∧ IsEdge e2 t.v2 t.v3 ∧ IsEdge e3 t.v3 t.v1 ∧
+      ∀ p, (p ∈ Line.points l12 ∨ p ∈ Line.points l23 ∨ p ∈ Line.points l31) ↔
+        (p ∈ Line.points e1 ∨ p ∈ Line.points e2 ∨ p ∈ Line.points e3) := by
+  obtain ⟨a, b, c⟩ := t
+  rcases mem_orders.mp h with rfl | rfl | rfl | rfl | rfl | rfl <;> dsimp only at h12 h23 h31 ⊢
+  · exact ⟨l12, l23, l31, h12, h23, h31, fun p => Iff.rfl⟩
+  · exact ⟨l31, l23, l12, h31.symm, h23.symm, h12.symm, fun p => by
+      constructor <;> rintro (h | h | h) <;> simp [h]⟩
+  · exact ⟨l12, l31, l23, h12.symm, h31.symm, h23.symm, fun p => by
+      constructor <;> rintro (h | h | h) <;> simp [h]⟩
+  · exact ⟨l31, l12, l23, h31, h12, h23, fun p => by
+      constructor <;> rintro (h | h | h) <;> simp [h]⟩
+  · exact ⟨l23, l31, l12, h23, h31, h12, fun p => by
+      constructor <;> rintro (h | h | h) <;> simp [h]⟩
+  · exact ⟨l23, l12, l31, h23.symm, h12.symm, h31.symm, fun p => by
+      constructor <;> rintro (h | h | h) <;> simp [h]⟩
+
+example : (⟨⟨3, 1⟩, ⟨0, 0⟩, ⟨5, 7⟩⟩ : Triangle) ∈ orders ⟨⟨0, 0⟩, ⟨5, 7⟩, ⟨3, 1⟩⟩ := by decide
+
+/-- **A one-pixel triangle outline consists of its three edge lines, for every stroke alignment**
+(`Inside`, `Center`, `Outside`): the pixel set of `pixels()` is the union of `Line::points()` of
+the three edges `v1 v2`, `v2 v3`, `v3 v1`, each rasterised in one of its two directions — for every
+vertex triple (colinear and coincident vertices included) whose bounding box is within the `i32`
+range. -/
+theorem outline_all_alignments (t : Triangle) (c : Nat) (a : TriAlign) (h : t.boundingBox.InRange) :
+    ∃ e1 e2 e3, IsEdge e1 t.v1 t.v2 ∧ IsEdge e2 t.v2 t.v3 ∧ IsEdge e3 t.v3 t.v1 ∧
+      ∀ p, p ∈ (t.outlinePixelsAligned c a).map (·.1) ↔
+        (p ∈ Line.points e1 ∨ p ∈ Line.points e2 ∨ p ∈ Line.points e3) := by
+  by_cases hc : t.areaDoubled = 0 ∧ a = .inside
+  · obtain ⟨ha, rfl⟩ := hc
+    obtain ⟨e1, e2, e3, h1, h2, h3, hu⟩ := edges_of_orders (sortedYx_mem_orders t)
+      (l12 := ⟨t.sortedYx.v1, t.sortedYx.v2⟩) (l23 := ⟨t.sortedYx.v2, t.sortedYx.v3⟩)
+      (l31 := ⟨t.sortedYx.v1, t.sortedYx.v3⟩) (Or.inl rfl) (Or.inl rfl) (Or.inr rfl)
+    exact ⟨e1, e2, e3, h1, h2, h3, fun p => by
+      rw [(outline_inside_degenerate t c h ha).2 p]; exact hu p⟩
+  · obtain ⟨e1, e2, e3, h1, h2, h3, hu⟩ := edges_of_orders (sortedClockwise_mem_orders t)
+      (l12 := ⟨t.sortedClockwise.v1, t.sortedClockwise.v2⟩)
+      (l23 := ⟨t.sortedClockwise.v2, t.sortedClockwise.v3⟩)
+      (l31 := ⟨t.sortedClockwise.v3, t.sortedClockwise.v1⟩) (Or.inl rfl) (Or.inl rfl) (Or.inl rfl)
+    refine ⟨e1, e2, e3, h1, h2, h3, fun p => ?_⟩
+    rw [outline_alignment_irrelevant t c a hc, outline_is_edge_lines t c h p, ← hu p]
+    constructor
+    · rintro (h | h | h) <;> simp [h]
+    · rintro (h | h | h) <;> simp [h]
+
+example : (⟨⟨0, 0⟩, ⟨5, 1⟩, ⟨4, 6⟩⟩ : Triangle).boundingBox.InRange := by decide
 
 end EG.C19
